@@ -26,8 +26,7 @@ def plan(tier, seed):
                dict(n=4, m=2, labels='ints', schemes='four', per=40, configs='kwik'),
                dict(n=3, m=3, labels='ints', schemes='six', per=40), dict(n=5, m=1, labels='ints', schemes='all'),
                dict(n=4, m=2, labels=alt, schemes='two', per=40, configs='det')]
-        ker = [dict(n=5, m=1, schemes='four'), dict(n=4, m=2, schemes='four', per=100), dict(n=3, m=3, schemes='four', per=100),
-               dict(n=5, m=2, schemes='one_b', per=4000, maxk=256, micro=False)]
+        ker = [dict(n=5, m=1, schemes='four'), dict(n=4, m=2, schemes='four', per=100), dict(n=3, m=3, schemes='four', per=100)]
     phases = cross.std_phases({'absent': api})
     shards = ds_shards(ker, per=20, kind='kernel')
     # per-block 'per' override
